@@ -7,6 +7,7 @@
 -/
 import PG.Lemmas.WriterInv
 import PG.Lemmas.ParserProgress
+import PG.Model.Trace
 namespace PG
 
 /-- For every record list — truncated line numbers, empty names, anything — whose tables fit
@@ -35,8 +36,27 @@ theorem C13_line_bounded (os : Nat) (oe : Option Nat) (start line : Nat) (hos : 
 
 /-- `parse_frame`'s slice `line[3..len-1]`: a trimmed line that starts with `at ` and ends with
     `)` has at least 4 bytes, so `3 ≤ len - 1` -/
+theorem stripPrefix_eq_append (p bs r : Bytes) (h : stripPrefix p bs = some r) : bs = p ++ r := by
+  induction p generalizing bs with
+  | nil => simp [stripPrefix] at h; simp [h]
+  | cons a as ih =>
+    cases bs with
+    | nil => simp [stripPrefix] at h
+    | cons b bs =>
+      simp only [stripPrefix] at h
+      split at h
+      · rename_i hab
+        have : a = b := by simpa using hab
+        subst this
+        rw [ih bs h]; rfl
+      · cases h
+
 theorem C13_frame_slice (line body : Bytes) (h1 : stripPrefix litAt line = some body)
     (h2 : body.getLast? = some 41) : 4 ≤ line.length := by
-  sorry
+  have := stripPrefix_eq_append litAt line body h1
+  subst this
+  cases body with
+  | nil => simp at h2
+  | cons b bs => simp [litAt]
 
 end PG
